@@ -316,3 +316,50 @@ PLANS['C16'] = dict(
     assumptions=['hashability is a property of the equality class of a component',
                  'events: where the documented per-call behaviour and the strictest per-registration reading differ both are accepted (DESIGN 3.16)'],
 )
+
+
+def _c11_jobs(tier):
+    out = []
+    q = tier == 'quick'
+    for m in ('py', 'c'):
+        out.append(dict(mode=m, shards=4 if q else 8, cases=2, nshards=4 if q else 8, part='script', cfgname='script'))
+        out.append(dict(mode=m, shards=1, cases=1, part='leak', cfgname='leak'))
+        out.append(dict(mode=m, shards=1, cases=2, part='threads', cfgname='threads-mutator', thread_mode='mutator',
+                        seconds=3 if q else 30, lookers=3))
+        out.append(dict(mode=m, shards=1, cases=2, part='threads', cfgname='threads-lookonly', thread_mode='lookonly',
+                        seconds=2 if q else 15, lookers=4))
+    # sanitizer legs (c only): the same scripted product without the monitor's retention and with the
+    # dict-free-list flood, so that a cache dictionary released during a callback really reaches free()
+    vg_shards = 6 if q else 16
+    out.append(dict(mode='c', shards=vg_shards, cases=1, nshards=vg_shards, part='script', cfgname='valgrind',
+                    runner='valgrind', build='dbg', audit=False, timeout_s=900 if q else 3600,
+                    only_actions=['register_flood', 'changed_flood'] if q else None,
+                    only_points=['uncached_exit', 'spec_weakref', 'provided_hash', 'name_hash', 'required_hash',
+                                 'generation_attr', 'value_del', 'factory'] if q else None))
+    if not q:
+        out.append(dict(mode='c', shards=8, cases=1, nshards=8, part='script', cfgname='asan', runner='asan', build='asan',
+                        audit=False, timeout_s=3600))
+        out.append(dict(mode='c', shards=1, cases=3, part='threads', cfgname='asan-threads', runner='asan', build='asan',
+                        thread_mode='mutator', seconds=40, lookers=3, flood=True, timeout_s=3600))
+        out.append(dict(mode='c', shards=1, cases=2, part='threads', cfgname='threads-flood', thread_mode='mutator',
+                        seconds=30, lookers=4, flood=True, switchinterval=1e-6))
+        out.append(dict(mode='py', shards=1, cases=2, part='threads', cfgname='threads-fast-switch', thread_mode='mutator',
+                        seconds=30, lookers=4, switchinterval=1e-6))
+    return out
+
+
+PLANS['C11'] = dict(
+    engine='reent', level='fault_enumeration', jobs=_c11_jobs,
+    minimums=lambda t: {'cells_reached': 1500, 'audited_dicts': 500, 'leak_scenarios': 30, 'thread_lookups': 20000,
+                        'thread_mutations': 200},
+    rule='Fault model = callback points (every place where foreign Python code can run while a lookup is on the stack: lazy '
+         'required, provided/name/required __hash__/__eq__/__bool__, overridden _uncached_* at entry and exit, spec weakref/'
+         'subscribe, __providedBy__/__provides__/__conform__ descriptors, factories, __del__ of a cached value, _generation on '
+         'the verifying path) x actions (register, unregister, subscribe, unsubscribe, changed, re-base, re-enter same/other '
+         'lookup, raise, gc, with/without dict-free-list flood) x ten entry points x two registry flavours, enumerated; per '
+         'reached cell: answer oracle (interrupted answer in {cold-before, cold-after}, next call and cold replay give after, '
+         'raised exception propagates) and cache-ownership audit (a cache dict with no owner at release time must not be written '
+         'later); leak meters; thread stress with generation-stamped values and a quiescence oracle.  Every reached cell is '
+         'non-trivial; distinct = distinct (flavour, point, action, entry) cells + leak scenarios + thread configurations.',
+    assumptions=['GIL: preemption happens only where Python code runs', 'valgrind/ASan legs decide reads and freed-memory writes (thorough)'],
+)
